@@ -104,13 +104,19 @@ static SMat gen_slu(Rng& r, size_t n, bool pivoted) {
     std::vector<SQ> M(n * n, sq_int(0)), U(n * n, sq_int(0)), L(n * n, sq_int(0));
     int den = (int)(n < 8 ? 8 : n);
     std::vector<size_t> sg(n); for (size_t i = 0; i < n; ++i) sg[i] = i;
-    if (pivoted) { // disjoint transpositions (j, m), j < m
+    if (pivoted) { // disjoint 2-cycles (a b) and 3-cycles a->b->c->a of row positions, a < b < c (sg[i] = position of row i of (I+M)(D+N) in A)
         std::vector<bool> used(n, false);
         size_t want = 1 + n / 4;
-        for (size_t t = 0; t < want * 3 && want > 0; ++t) {
-            size_t a = r.upto((int)n), b = r.upto((int)n);
+        for (size_t t = 0; t < want * 4 && want > 0; ++t) {
+            bool three = n >= 3 && r.upto(2);
+            size_t a = r.upto((int)n), b = r.upto((int)n), c = r.upto((int)n);
+            if (a > b) std::swap(a, b);
+            if (three) { if (b > c) std::swap(b, c); if (a > b) std::swap(a, b); }
             if (a == b || used[a] || used[b]) continue;
-            used[a] = used[b] = true; std::swap(sg[a], sg[b]); --want;
+            if (three && (b == c || used[c])) continue;
+            if (!three) { used[a] = used[b] = true; sg[a] = b; sg[b] = a; }
+            else { used[a] = used[b] = used[c] = true; sg[a] = b; sg[b] = c; sg[c] = a; }
+            --want;
         }
     }
     for (size_t i = 0; i < n; ++i) { L[i * n + i] = sq_int(1); U[i * n + i] = sq_int(r.sgn() * (r.upto(2) ? 64 : 128)); }
@@ -139,6 +145,21 @@ static bool gen_input(unsigned seed, int fam, size_t n, bool pivoted, SMat& A, i
     return false;
 }
 
+// independent exact determinant of an integer matrix: fraction-free (Bareiss) elimination with row exchanges, __int128
+static bool bareiss_det(const SMat& A, size_t n, i128& det) {
+    std::vector<i128> M(n * n); for (size_t i = 0; i < n * n; ++i) { if (A[i].d != 1) return false; M[i] = A[i].n; }
+    i128 prev = 1; int sign = 1;
+    for (size_t k = 0; k + 1 < n; ++k) {
+        if (M[k * n + k] == 0) { size_t s = k + 1; while (s < n && M[s * n + k] == 0) ++s; if (s == n) { det = 0; return true; }
+            for (size_t j = 0; j < n; ++j) std::swap(M[k * n + j], M[s * n + j]); sign = -sign; }
+        for (size_t i = k + 1; i < n; ++i) for (size_t j = k + 1; j < n; ++j) {
+            i128 a = M[i * n + j], b = M[k * n + k], c = M[i * n + k], d = M[k * n + j];
+            const i128 LIM = (i128)1 << 60; if (vf::iabs(a) > LIM || vf::iabs(b) > LIM || vf::iabs(c) > LIM || vf::iabs(d) > LIM) return false;
+            M[i * n + j] = (a * b - c * d) / prev; }
+        prev = M[k * n + k];
+    }
+    det = sign * M[n * n - 1]; return true;
+}
 static std::string rstr(const Rat& x) { return x.str(); }
 template<size_t n> static std::string mstr(const Fastor::Tensor<Rat, n, n>& X) {
     std::string s; s.reserve(n * n * 4);
@@ -170,7 +191,7 @@ template<size_t n, int STRAT, int ENC, int FORM = 0> void run_lu(unsigned seed, 
     vf::ratpool.reset();
     SMat SA; int tries = 0;
     char head[256];
-    std::snprintf(head, sizeof head, "lu n=%zu strat=%s enc=%s form=%d fam=%d seed=%u", n, STRAT_NAME[STRAT], ENC_NAME[ENC], FORM, fam, seed);
+    std::snprintf(head, sizeof head, "lu n=%zu strat=%s enc=%s form=%d det=%d fam=%d seed=%u", n, STRAT_NAME[STRAT], ENC_NAME[ENC], FORM, (STRAT == 2 && ENC == 1 && FORM == 0 && (n <= 8 || (n <= 10 && fam == 0))) ? 1 : 0, fam, seed);
     if (!gen_input(seed, fam, n, STRAT >= 2, SA, tries)) { std::printf("note: %s no admissible input found\n", head); return; }
     Tensor<Rat, n, n> A;
     for (size_t i = 0; i < n * n; ++i) A.data()[i] = Rat::make(SA[i].n, SA[i].d);
@@ -181,6 +202,11 @@ template<size_t n, int STRAT, int ENC, int FORM = 0> void run_lu(unsigned seed, 
     Tensor<Rat, n, n> L, U, Pm; L.fill(Rat(7)); U.fill(Rat(-5)); Pm.fill(Rat(3));
     Tensor<size_t, n> Pv; Pv.fill(999);
     Tensor<Rat, n, n> R, Z; Z.fill(Rat(0));
+    // determinant<DetCompType::LU> (count_swaps parity * product of the pivots of BlockLUPiv): once per (n, seed, family), small n (the product of the pivots must stay below 2^62)
+    const bool withdet = (STRAT == 2 && ENC == 1 && FORM == 0 && (n <= 8 || (n <= 10 && fam == 0)));
+    std::string dstr = "-", dwhy;
+    if (withdet) { Rat d = determinant<DetCompType::LU>(A); dstr = rstr(d); i128 ex;
+        if (bareiss_det(SA, n, ex) && !(d.den() == 1 && d.num() == ex)) dwhy = "determinant<LU>=" + dstr + "vs" + vf::i128str(ex); }
     if (FORM == 0) {
         if (ENC == 0) { Call<STRAT, n>::nopiv(A, L, U); R = reconstruct(L, U); }
         else if (ENC == 1) { Call<STRAT, n>::piv(A, L, U, Pv); R = reconstruct(L, U, Pv); }
@@ -221,6 +247,8 @@ template<size_t n, int STRAT, int ENC, int FORM = 0> void run_lu(unsigned seed, 
         }
     }
     if (why.empty()) for (size_t i = 0; i < n * n; ++i) if (!(R.data()[i] == A0.data()[i])) { why = "reconstruct(" + std::to_string(i / n) + "," + std::to_string(i % n) + ")=" + rstr(R.data()[i]) + "vs" + rstr(A0.data()[i]); break; }
+    if (why.empty() && !dwhy.empty()) why = dwhy;
+    size_t maxcyc = 1; { std::vector<bool> seen(n, false); for (size_t i = 0; i < n; ++i) if (!seen[i] && perm[i] < n) { size_t len = 0, k = i; while (k < n && !seen[k]) { seen[k] = true; k = perm[k]; ++len; } if (len > maxcyc) maxcyc = len; } }
     // heights: every rational ever created during this case is in the pool
     i128 hmax = 0; for (const vf::RatV& v : vf::ratpool.v) { if (vf::iabs(v.n) > hmax) hmax = vf::iabs(v.n); if (v.d > hmax) hmax = v.d; }
     int bits = 0; while (hmax > 0) { ++bits; hmax >>= 1; }
@@ -229,8 +257,8 @@ template<size_t n, int STRAT, int ENC, int FORM = 0> void run_lu(unsigned seed, 
     std::string pstr = "-";
     if (ENC == 1) { pstr.clear(); for (size_t i = 0; i < n; ++i) { if (i) pstr += ','; pstr += std::to_string(Pv(i)); } }
     if (ENC == 2) pstr = mstr(Pm);
-    std::printf("%s %s | L=%s U=%s P=%s R=%s ORACLE=%s OOB=0 HBITS=%d TRIES=%d\n", head, astr.c_str(),
-                mstr(L).c_str(), mstr(U).c_str(), pstr.c_str(), mstr(R).c_str(), why.empty() ? "ok" : ("FAIL:" + why).c_str(), bits, tries);
+    std::printf("%s %s | L=%s U=%s P=%s R=%s D=%s ORACLE=%s OOB=0 HBITS=%d TRIES=%d CYC=%zu\n", head, astr.c_str(),
+                mstr(L).c_str(), mstr(U).c_str(), pstr.c_str(), mstr(R).c_str(), dstr.c_str(), why.empty() ? "ok" : ("FAIL:" + why).c_str(), bits, tries, maxcyc);
 }
 } // namespace vlu
 using vlu::run_lu;
